@@ -1,5 +1,6 @@
-"""Worker for C06: extract every given file in THIS interpreter (fresh process, PYTHONHASHSEED set by
-the parent) and print {relpath: sha256 of canonical to_json() of all results | "ERR:<class>"}."""
+"""Worker for C06: extract every given file in THIS interpreter (fresh process; PYTHONHASHSEED, TZ and the faked
+wall clock S2T_FAKE_CLOCK set by the parent) and print {relpath: sha256 of canonical to_json() of all results |
+"ERR:<class>"}."""
 import hashlib
 import io
 import json
@@ -10,6 +11,10 @@ import sys
 logging.disable(logging.CRITICAL)
 repo = os.environ.get("S2T_REPO", "/repo")
 sys.path.insert(0, repo)
+sys.path.insert(0, os.path.dirname(os.path.abspath(__file__)))
+import c06_clock  # noqa: E402
+
+c06_clock.install_from_env(os.environ)      # before the library and its third-party parsers are imported
 import warnings  # noqa: E402
 
 warnings.filterwarnings("ignore")
